@@ -133,7 +133,8 @@ def _bleu_score_compute(
         weights = torch.tensor([1 / n_gram] * n_gram, device=input_len.device)
 
     precisions = matches_by_order / possible_matches_by_order
-    geometric_mean = torch.exp(torch.sum(weights * torch.log(precisions)))
+    # xlogy(w, p) = w * log(p), and 0 where w == 0: a zero-weighted order is ignored (p ** 0 == 1)
+    geometric_mean = torch.exp(torch.sum(torch.xlogy(weights, precisions)))
 
     brevity_penalty = _calc_brevity_penalty(input_len, target_len)
 
